@@ -17,6 +17,7 @@ type zzCutConn struct {
 	data []byte
 	pos  int
 	cut  int
+	cut2 int // second cut (0: none); thorough tier
 	out  []byte
 }
 
@@ -27,15 +28,19 @@ func (c *zzCutConn) Read(b []byte) (int, error) {
 	end := len(c.data)
 	if c.pos < c.cut {
 		end = c.cut
+	} else if c.cut2 > c.cut && c.pos < c.cut2 {
+		end = c.cut2
 	}
 	n := copy(b, c.data[c.pos:end])
 	c.pos += n
 	return n, nil
 }
-func (c *zzCutConn) Write(b []byte) (int, error)        { c.out = append(c.out, b...); return len(b), nil }
-func (c *zzCutConn) Close() error                       { return nil }
-func (c *zzCutConn) LocalAddr() net.Addr                { return &net.TCPAddr{IP: net.IPv4(10, 0, 0, 1), Port: 11211} }
-func (c *zzCutConn) RemoteAddr() net.Addr               { return &net.TCPAddr{IP: net.IPv4(10, 9, 9, 9), Port: 40000} }
+func (c *zzCutConn) Write(b []byte) (int, error) { c.out = append(c.out, b...); return len(b), nil }
+func (c *zzCutConn) Close() error                { return nil }
+func (c *zzCutConn) LocalAddr() net.Addr         { return &net.TCPAddr{IP: net.IPv4(10, 0, 0, 1), Port: 11211} }
+func (c *zzCutConn) RemoteAddr() net.Addr {
+	return &net.TCPAddr{IP: net.IPv4(10, 9, 9, 9), Port: 40000}
+}
 func (c *zzCutConn) SetDeadline(t time.Time) error      { return nil }
 func (c *zzCutConn) SetReadDeadline(t time.Time) error  { return nil }
 func (c *zzCutConn) SetWriteDeadline(t time.Time) error { return nil }
@@ -74,10 +79,14 @@ func zzH_C04_memcached() {
 	}
 	stream := []byte(c1 + "\r\n" + c2 + "\r\n")
 	cut := zzLen(1, len(stream))
+	cut2 := 0
+	if zzParam("CUTS", 1) == 2 && cut < len(stream) {
+		cut2 = zzLen(cut, len(stream)) // cut2 == cut: no second cut
+	}
 	rec := &zzEvRec{}
 	s := Memcached().(*memcachedService)
 	s.SetChannel(rec)
-	s.Handle(context.Background(), &zzCutConn{data: stream, cut: cut})
+	s.Handle(context.Background(), &zzCutConn{data: stream, cut: cut, cut2: cut2})
 	got := zzFieldList(rec.evs, "memcached-command", "memcached.command")
 	zzAssert(len(got) == 2, "each complete command produces exactly one event, however the stream is segmented")
 	if len(got) == 2 {
